@@ -274,22 +274,22 @@ func runOneCtx(ctx context.Context, s solverSpec, body string, tmo int, n int64,
 	dt := time.Since(t0).Seconds()
 	o := out.String()
 	line := ""
-	rest := o
-	for _, l := range strings.Split(o, "\n") {
-		l = strings.TrimSpace(l)
-		if l == "sat" || l == "unsat" || l == "unknown" || l == "timeout" {
-			line = l
-			if i := strings.Index(o, l+"\n"); i >= 0 {
-				rest = o[i:]
-			}
+	pos := 0
+	for _, l := range strings.SplitAfter(o, "\n") {
+		t := strings.TrimSpace(l)
+		if t == "sat" || t == "unsat" || t == "unknown" || t == "timeout" {
+			line = t
 			break
 		}
+		if strings.HasPrefix(t, "(error") {
+			// an error before the verdict: the query was not well-formed
+			break
+		}
+		pos += len(l)
 	}
-	if i := strings.Index(o, "(error"); i >= 0 && (line == "" || i < strings.Index(o, line+"\n") || strings.Index(o, line+"\n") < 0) {
-		// an error before the verdict: the query was not well-formed
-		line = ""
+	if line != "" {
+		o = o[pos:]
 	}
-	o = rest
 	r := SolverResult{Solver: s.name, Seconds: dt, Output: trunc(o, 4000)}
 	switch {
 	case line == "unsat":
